@@ -1,5 +1,5 @@
 """Which rules and witnesses decide which property."""
-from . import shared_state, surface, entry, tables, dirflow, precision
+from . import shared_state, surface, entry, tables, dirflow, precision, gates
 
 RULES = {
     "R-NOCELL": shared_state.r_nocell,
@@ -23,6 +23,8 @@ RULES = {
     "R-NORECUR": precision.r_norecur,
     "R-FROMF64": precision.r_fromf64,
     "R-RINGOPS": precision.r_ringops,
+    "R-GATES": gates.r_featgate,
+    "R-PLANNERGATE": gates.r_plannergate,
 }
 
 PROPS = {
@@ -146,6 +148,51 @@ PROPS = {
                        "numeric bound (e.g. a numerically poor butterfly); that part is value-level and not decided.",
         "decides": "mechanisms: f64-only twiddle evaluation from an integer index, integer mod 2n before the Bluestein chirp, no twiddle recurrence",
         "does_not_decide": "the bound 16*eps*log2(2n) itself; pre-scaling by 1/m beyond its appearance as a real-scalar product",
+        "assumptions": ["x86_64 non-test code"],
+    },
+    "C13": {
+        "level": "other",
+        "rules": ["R-GATES", "R-PLANNERGATE", "R-TABLES"],
+        "all_feature_sets_in_quick": True,
+        "witnesses": [],
+        "explanation": "All four cargo feature sets (default, sse, avx, none) are type-checked and analysed -- three of them are programs no test "
+                       "ever compiles. Capability levels are not emulated; instead the invariant that makes every level safe is decided: "
+                       "(R-GATES) every call of a #[target_feature] function or intrinsic, every slice re-typing and every unwrap() of a "
+                       "detection-gated constructor is discharged by the enclosing function's own target features, by detection/TypeId edges that "
+                       "dominate it, or by the existence of a gated type whose every construction site established the fact; nothing escapes to an "
+                       "externally reachable function (so e.g. RadersAvx2 -- needing avx2 -- can only exist after avx2 was detected, and the "
+                       "avx-without-avx2 branch that this CPU never takes is checked as thoroughly as the one it takes). (R-PLANNERGATE) each SIMD planner's "
+                       "new() returns Ok only with its features detected and T identified as f32/f64, Err only when one of exactly those tests fails, has no "
+                       "undischarged panic edge; compiled-out stubs always return Err and are unconstructible; FftPlanner::new probes "
+                       "AVX->SSE->NEON->WASM->scalar without panic edges or unwraps. NOT decided: numerical correctness of the plans chosen at each level.",
+        "decides": "instance exists => its instruction sets were detected; planners decline exactly when unavailable and never panic; every feature set type-checks and passes the rules",
+        "does_not_decide": "C01/C02 of the plans chosen under each capability level",
+        "assumptions": ["x86_64 only (neon/wasm_simd modules cannot be compiled here; their planners are the always-Err stubs)", "std's is_x86_feature_detected! is correct"],
+    },
+    "C14": {
+        "level": "other",
+        "rules": ["R-PLANNERGATE", "R-GATES", "R-FROMF64", "R-RINGOPS"],
+        "witnesses": ["W-NUM"],
+        "explanation": "(W-NUM) a minimal element type implementing exactly Copy+FromPrimitive+Signed+Sync+Send+Debug+'static (no Float, size 24) "
+                       "type-checks against FftPlanner, every SIMD planner constructor, every public algorithm constructor and all Fft methods, so the "
+                       "portable code can use nothing beyond the bound; (R-PLANNERGATE) SIMD planners return Ok only when T was identified as f32/f64, "
+                       "so they decline every other type; (R-GATES) no path re-types a Complex<T> slice without an established type identity; "
+                       "(R-FROMF64/R-RINGOPS) on the element type the generic code invokes only Add/Sub/Mul/Neg (+Div for the 1/m scale), Zero/One and "
+                       "from_f64/from_usize. NOT decided: exactness of the transform in exact arithmetic (value-level).",
+        "decides": "SIMD planners decline T not in {f32,f64}; portable code needs only the public bound, ring ops and from_f64/from_usize constants",
+        "does_not_decide": "that the planned transform equals the DFT exactly in exact arithmetic",
+        "assumptions": ["x86_64 non-test code"],
+    },
+    "C03": {
+        "level": "other",
+        "rules": ["R-ENTRY", "R-HELPER", "R-GATES"],
+        "witnesses": [],
+        "explanation": "Layered argument. (1) R-ENTRY/R-HELPER: every public way into per-chunk code passes a validator that hands out chunks of exactly "
+                       "len() elements and scratch trimmed to exactly the advertised length (validators and helpers are safe code). (3) R-GATES: no slice is "
+                       "re-typed to another element type without an established type identity and no instruction outside the detected feature set can "
+                       "execute (both are undefined behaviour otherwise). Layers (2) fixed-size kernel bounds and (4) relational inventory: see rules list.",
+        "decides": "validated entry into every kernel; type-identity gate before every slice re-typing; CPU-feature gate before every #[target_feature] call",
+        "does_not_decide": "accesses whose bound is a relation between run-time lengths (transposes, radix-N cross butterflies, AVX mixed-radix/Rader/Bluestein rows): inventoried as undecided",
         "assumptions": ["x86_64 non-test code"],
     },
 }
